@@ -482,7 +482,7 @@ def cases(tier, seed):
                 # all 16 argument-count combinations at the default configuration
                 out.append({'name': 'call:%s:%s:%s|default%s' % (pool, style, cname, '|sorted' if n % 8 < 4 else ''), 'family': 'call',
                             'params': {'pool': pool, 'style': style, 'callable': cname, 'sort': n % 8 < 4,
-                                       'context': 'top' if n % 2 else 'elem', 'slice': 'default'},
+                                       'context': 'top' if (n // 4) % 2 else 'elem', 'slice': 'default'},
                             'budget': 150.0 if tier == 'quick' else 400.0, 'path_timeout': 30.0,
                             'twin': n == 4})
                 # symbolic width with the argument counts pinned
@@ -490,7 +490,7 @@ def cases(tier, seed):
                 for fx in fixes:
                     out.append({'name': 'call:%s:%s:%s|page|%d+%d' % (pool, style, cname, fx[0], fx[1]), 'family': 'call',
                                 'params': {'pool': pool, 'style': style, 'callable': cname, 'fix': list(fx),
-                                           'context': 'top' if n % 2 else 'elem', 'slice': 'page'},
+                                           'context': 'top' if (n // 4) % 2 else 'elem', 'slice': 'page'},
                                 'budget': 150.0 if tier == 'quick' else 400.0, 'path_timeout': 30.0})
     # every argument is printed as on its own also under a small max_seq_len / None
     for pool in ('mixed', 'hug-dict'):
